@@ -567,7 +567,7 @@ var Prop = &harness.Prop{
 		for _, es := range []uint16{gmref.SuiteECDHERSAGCM, gmref.SuiteECDHEECDSAGCM} {
 			u = append(u, ecdheUnit(es, true), ecdheUnit(es, false))
 		}
-		u = append(u, tlsTicketIdentityUnit(), gmTicketIdentityUnit(), nameMatrixUnit(), callbackUnit(),
+		u = append(u, tlsTicketIdentityUnit(), gmTicketIdentityUnit(), nameMatrixUnit(), callbackUnit(), dialUnit(),
 			renegIdentityUnit(gmref.SuiteAESCBC, 0x0303), renegIdentityUnit(gmref.SuiteAESGCM, 0x0303), renegIdentityUnit(gmref.SuiteAESCBC, 0x0301), renegIdentityUnit(gmref.SuiteECDHEECDSAGCM, 0x0303), renegIdentityUnit(gmref.SuiteECDHERSAGCM, 0x0303))
 		chd := 4
 		if tier == "thorough" {
